@@ -267,16 +267,39 @@ fn gc_case(c: &String, rec: &mut Rec) {
         ("hetero:rehner2023:eos", GcPcSaftEosParameters::from_json_segments(&[name], sub.clone(), pfile("pcsaft/rehner2023_hetero.json"), Some(pfile("pcsaft/rehner2023_hetero_binary.json")), IdentifierOption::Name).map(|_| ()).map_err(|e| e.to_string())),
     ];
     let mut any = false;
-    for (k, v) in &r {
+    // reference decision read from the raw JSON: a table can assemble a substance iff it has every group the substance uses
+    // and, for the homosegmented model, at most one group (counted with multiplicity) carries a dipole, a quadrupole or
+    // association sites
+    let raw = |f: &str| -> Vec<serde_json::Value> { serde_json::from_str(&std::fs::read_to_string(pfile(f)).unwrap()).unwrap() };
+    let subs = raw("pcsaft/gc_substances.json");
+    let segs: Vec<String> = subs.iter().find(|s| s["identifier"]["name"].as_str() == Some(name)).map(|s| s["segments"].as_array().unwrap().iter().map(|x| x.as_str().unwrap().to_string()).collect()).unwrap_or_default();
+    let tables = ["pcsaft/sauer2014_homo.json", "pcsaft/sauer2014_hetero.json", "pcsaft/sauer2014_hetero.json", "pcsaft/rehner2023_homo.json", "pcsaft/rehner2023_hetero.json"];
+    for (i, (k, v)) in r.iter().enumerate() {
+        let table = raw(tables[i]);
+        let find = |g: &str| table.iter().find(|t| t["identifier"].as_str() == Some(g));
+        let complete = !segs.is_empty() && segs.iter().all(|g| find(g).is_some());
+        let polar = segs
+            .iter()
+            .filter(|g| {
+                find(g).is_some_and(|t| {
+                    let m = &t["model_record"];
+                    let n = |k: &str| m[k].as_f64().unwrap_or(0.0);
+                    !m["mu"].is_null() || !m["q"].is_null() || n("na") + n("nb") + n("nc") > 0.0
+                })
+            })
+            .count();
+        let expect_ok = complete && (!k.starts_with("homo") || polar <= 1);
         match v {
             Ok(()) => {
                 any = true;
-                rec.require("gc_assembles", k, true, String::new);
+                rec.require("gc_assembles", k, expect_ok, || format!("{name}: {k} assembles although the table is incomplete for it or it has {polar} polar/associating groups"));
             }
             // a substance may use groups that a given table does not contain (tables cover different chemistries)
             Err(e) => {
-                rec.skip(&format!("segment table {k} lacks a group"));
-                let _ = e;
+                rec.require("gc_assembles", k, !expect_ok, || format!("{name}: {k} has every group of {segs:?} and {polar} polar/associating group(s) but construction fails: {e}"));
+                if !expect_ok {
+                    rec.skip(&format!("segment table {k} lacks a group or the substance has several polar/associating groups"));
+                }
             }
         }
     }
